@@ -1190,7 +1190,7 @@ func c08ErrorBody(c *Ctx) {
 		end := everyPathEntry(fn, isWH, writesBody, true)
 		c.check(end == nil, "C08.R3", fnName(fn)+"/writes-given-status", fn.Pos(), "w.WriteHeader(statusCode) precedes the body on every path", "the error helper does not write the status code it was given before the body: the client sees 200 with an error body")
 	}
-	if n < 2 {
-		c.fail("C08.R3", "errorResponse-helpers", token.NoPos, fmt.Sprintf("expected the proxy's and the agent's errorResponse helpers, found %d", n))
+	if p.Func("server/proxy", "errorResponse") == nil || n == 0 {
+		c.fail("C08.R3", "errorResponse-helper", token.NoPos, "the proxy's errorResponse helper was not found")
 	}
 }
